@@ -1,14 +1,115 @@
-/- C01 — resolved levels follow UAX #9.  (first layer; see DESIGN.md §5) -/
+/-
+  C01 — resolved levels follow UAX #9.
+
+  Base layer of the proof (stage lemmas; see DESIGN.md §5):
+  * `C01_fill_spec`      — StageFill: what `assign_levels_to_removed_chars` computes,
+  * `C01_stageI`         — StageI: `resolve_levels` is rules I1/I2 and cannot overflow,
+  * `C01_lengths`        — every stage keeps one entry per code unit,
+  * `C01_removed_carry`  — second sentence of C01 for the whole pipeline of one paragraph.
+  Helper lemmas: UBidi/Lemmas/C01Base.lean.
+-/
 import UBidi.Model.Pipeline
 import UBidi.Spec.UAX9
+import UBidi.Lemmas.C01Base
 namespace UBidi.Props.C01
 open UBidi
 
 /-- the removed-character fill keeps one level per code unit -/
 theorem fill_length (prev : Nat) (ocs : List BidiClass) (lv : List Nat) :
-    (fillRemovedLoop prev ocs lv).length = lv.length := by
-  induction lv generalizing prev ocs with
-  | nil => cases ocs <;> simp [fillRemovedLoop]
-  | cons l ls ih => cases ocs <;> simp [fillRemovedLoop, ih]
+    (fillRemovedLoop prev ocs lv).length = lv.length :=
+  Base.fillLoop_length prev ocs lv
+
+/-- StageFill: what `assign_levels_to_removed_chars` computes.  A unit whose original
+    class is removed by X9 takes the (already filled) level of the unit before it, the
+    first unit of the paragraph takes the paragraph level; every other unit keeps its level. -/
+theorem C01_fill_spec (pl : Nat) (ocs : List BidiClass) (lv : List Nat)
+    (h : ocs.length = lv.length) (i : Nat) (hi : i < lv.length) :
+    (assignLevelsToRemovedChars pl ocs lv)[i]? =
+      if (ocs.getD i .ON).removedByX9 then
+        (if i = 0 then some pl else (assignLevelsToRemovedChars pl ocs lv)[i - 1]?)
+      else lv[i]? := by
+  have _ := h   -- not needed: see `Base.fillLoop_spec`
+  exact Base.fillLoop_spec pl ocs lv i hi
+
+/-- non-vacuity / test of `C01_fill_spec` on a literal: `L RLE BN R` with levels `0 9 9 1`
+    gives `0 0 0 1`; with a removed first unit the paragraph level is used. -/
+example : assignLevelsToRemovedChars 0 [.L, .RLE, .BN, .R] [0, 9, 9, 1] = [0, 0, 0, 1] ∧
+    assignLevelsToRemovedChars 1 [.LRE, .L, .PDF] [7, 2, 7] = [1, 2, 2] := by decide
+
+/-- StageI: `resolve_levels` is rules I1/I2 (`Spec.implicitLevel`, unit by unit), and
+    cannot overflow when the explicit levels are ≤ 125. -/
+theorem C01_stageI (pcs : List BidiClass) (lv : List Nat) (hlen : pcs.length = lv.length)
+    (h : ∀ l ∈ lv, l ≤ 125) :
+    (resolveLevels pcs lv).1 = (lv.zip pcs).map (fun (l, c) => Spec.implicitLevel l c) ∧
+    (resolveLevels pcs lv).2 = none := by
+  have key : ∀ x ∈ lv.zip pcs, resolveLevel x.1 x.2 = (Spec.implicitLevel x.1 x.2, none) := by
+    intro x hx
+    exact Base.resolveLevel_spec x.1 x.2 (h _ (List.of_mem_zip hx).1)
+  constructor
+  · simp only [resolveLevels, List.map_map]
+    apply List.map_congr_left
+    intro x hx
+    simp [key x hx]
+  · simp only [resolveLevels, hlen, if_true]
+    rw [List.foldl_map]
+    apply Base.foldl_orErr_none (fun (x : Nat × BidiClass) => (resolveLevel x.1 x.2).2)
+    intro x hx; rw [key x hx]
+
+/-- non-vacuity of `C01_stageI`: the hypotheses hold for the extreme levels 124/125, and the
+    bound 125 is sharp (at 126 the Model reports the overflow panic).  (test on literals) -/
+example : resolveLevels [.EN, .L, .R, .AN] [124, 125, 125, 0] = ([126, 126, 125, 2], none) ∧
+    (resolveLevels [.R] [126]).2 = some .raiseOverflow := by decide
+
+/-- every stage keeps one entry per code unit: the levels of a paragraph have exactly
+    `t.len` entries. -/
+theorem C01_lengths (ds : DataSource) (pl : Nat) (pure hasIso : Bool) (t : Text) (hwf : t.WF)
+    (ocs : List BidiClass) (hlen : ocs.length = t.len) :
+    (paraLevels ds pl pure hasIso t ocs).1.length = t.len := by
+  have _ := hlen
+  exact Base.paraLevels_length ds pl pure hasIso t hwf ocs
+
+/-- C01, second sentence, for the whole pipeline of one paragraph: a code unit whose original
+    class is removed by X9 carries the level of the unit before it (the paragraph level
+    when it is the first unit of the paragraph). -/
+theorem C01_removed_carry (ds : DataSource) (pl : Nat) (pure hasIso : Bool) (t : Text)
+    (hwf : t.WF) (ocs : List BidiClass) (hlen : ocs.length = t.len) (i : Nat) (hi : i < t.len)
+    (hr : (ocs.getD i .ON).removedByX9 = true) :
+    let lv := (paraLevels ds pl pure hasIso t ocs).1
+    lv[i]? = if i = 0 then some pl else lv[i - 1]? := by
+  intro lv
+  by_cases hp : (pl == 0 && pure) = true
+  · have hlv : lv = List.replicate t.len pl := by
+      simp only [lv, paraLevels, hp, if_true]
+    rw [hlv]
+    have h1 : i - 1 < t.len := by omega
+    simp [hi, h1]
+  · have hlv : lv = assignLevelsToRemovedChars pl ocs
+        (resolveLevels (resolveSequences ds t (explicitCompute t pl ocs).levels ocs
+          (isolatingRunSequences pl ocs (explicitCompute t pl ocs).levels
+            (explicitCompute t pl ocs).runs hasIso).1 (explicitCompute t pl ocs).pcs).1
+          (explicitCompute t pl ocs).levels).1 := by
+      simp only [lv, paraLevels, hp]
+      rfl
+    rw [hlv]
+    have hl : ocs.length = (resolveLevels (resolveSequences ds t (explicitCompute t pl ocs).levels ocs
+          (isolatingRunSequences pl ocs (explicitCompute t pl ocs).levels
+            (explicitCompute t pl ocs).runs hasIso).1 (explicitCompute t pl ocs).pcs).1
+          (explicitCompute t pl ocs).levels).1.length := by
+      simp only [Base.resolveLevels_length, Base.resolveSequences_length,
+        (Base.explicit_levels t hwf pl ocs).1, (Base.explicit_pcs t hwf pl ocs).1, Nat.min_self, hlen]
+    have := C01_fill_spec pl ocs _ hl i (by rw [← hl, hlen]; exact hi)
+    rw [this, hr]; rfl
+
+/-- non-vacuity of `C01_lengths` / `C01_removed_carry`: the `&str` "a RLE alef PDF 1"
+    (10 code units) with its original classes meets the hypotheses; units 1..3 (RLE) and
+    6..8 (PDF) are removed by X9, and the Model's levels show the carry.  (`ofScalars_WF`
+    is a proof for every `&str`; the rest is a test on this literal.) -/
+example :
+    let t := Text.ofScalars [0x61, 0x202B, 0x5D0, 0x202C, 0x31]
+    let ocs : List BidiClass := [.L, .RLE, .RLE, .RLE, .R, .R, .PDF, .PDF, .PDF, .EN]
+    t.WF ∧ ocs.length = t.len ∧ (ocs.getD 1 .ON).removedByX9 = true ∧
+      (ocs.getD 6 .ON).removedByX9 = true ∧
+      (paraLevels hardcoded 0 false false t ocs).1 = [0, 0, 0, 0, 1, 1, 1, 1, 1, 2] :=
+  ⟨Base.ofScalars_WF _, by decide, by decide, by decide, by decide +kernel⟩
 
 end UBidi.Props.C01
